@@ -142,7 +142,7 @@ func c03Alphabet(tier string) []sym {
 	return out
 }
 
-var c03Priors = []string{"empty", "a-symlink-out", "a-dir-with-symlink", "a-file", "b-relsymlink-out", "a-chain-out", "a-chain-rel"}
+var c03Priors = []string{"empty", "a-symlink-out", "a-dir-with-symlink", "a-file", "b-relsymlink-out", "a-chain-out", "a-chain-rel", "two-dirs", "a-hardlink-out"}
 
 func c03Prior(name string) fsmodel.Tree {
 	T := fsmodel.T0
@@ -161,6 +161,12 @@ func c03Prior(name string) fsmodel.Tree {
 		return fsmodel.Tree{{Path: ".fsutil-metadata", Kind: fsmodel.Symlink, Perm: 0777, Mtime: T, Link: "/outside/f"}, {Path: "a", Kind: fsmodel.Dir, Perm: 0755, Mtime: T}}
 	case "listing-link-dir":
 		return fsmodel.Tree{{Path: ".fsutil-metadata", Kind: fsmodel.Symlink, Perm: 0777, Mtime: T, Link: relOutD}}
+	case "two-dirs":
+		// two directories in a row, both with children; the children of b are named like entries of /outside/d
+		return fsmodel.Tree{{Path: "a", Kind: fsmodel.Dir, Perm: 0755, Mtime: T}, {Path: "a/x", Kind: fsmodel.File, Perm: 0644, Mtime: T, Data: []byte("x")},
+			{Path: "b", Kind: fsmodel.Dir, Perm: 0755, Mtime: T}, {Path: "b/b", Kind: fsmodel.File, Perm: 0644, Mtime: T, Data: []byte("bb")}, {Path: "b/g", Kind: fsmodel.File, Perm: 0644, Mtime: T, Data: []byte("bg")}}
+	case "a-hardlink-out":
+		return fsmodel.Tree{{Path: "b", Kind: fsmodel.File, Perm: 0644, Mtime: T, Data: []byte("old-b")}} // plus a = second name of /outside/f, linked in by the judge
 	case "a-chain-out":
 		// a link whose first hop stays inside the destination and whose second hop leaves it
 		return fsmodel.Tree{{Path: "a", Kind: fsmodel.Symlink, Perm: 0777, Mtime: T, Link: "b"}, {Path: "b", Kind: fsmodel.Symlink, Perm: 0777, Mtime: T, Link: "/outside/d"}}
@@ -357,13 +363,24 @@ func (s *statSpec) accept(st *types.Stat) bool {
 }
 
 // outsideState renders everything outside dest that must not change.
-func outsideState(root string) (string, error) {
+func outsideState(root string, linkedIn ...string) (string, error) {
 	var sb strings.Builder
 	snap, err := fsmodel.Snapshot(filepath.Join(root, "outside"))
 	if err != nil {
 		return "", err
 	}
 	for _, n := range snap {
+		loose := false
+		for _, l := range linkedIn {
+			loose = loose || n.Path == l
+		}
+		if loose {
+			// this outside inode has a name inside the destination: removing that name is the receiver's business and
+			// changes the link count and ctime; bytes, mode, owner and mtime are not its to touch
+			n.HL = 0
+			fmt.Fprintf(&sb, "%s ino=%d\n", n.String(), n.Ino)
+			continue
+		}
 		fmt.Fprintf(&sb, "%s ino=%d ctime=%d nlink=%d\n", n.String(), n.Ino, n.Ctime, n.Nlink)
 	}
 	for _, p := range []string{"", "outside", "p1", "p1/p2"} {
@@ -411,7 +428,15 @@ func judgeC03(root string, c c03Case) (string, string) {
 	}
 	os.Lchown(dest, 13, 13)
 	os.Chmod(dest, 0755)
-	before, err := outsideState(root)
+	var linkedIn []string
+	if c.Prior == "a-hardlink-out" {
+		// the destination holds a second name of an outside file (what cp -al / rsync --link-dest leave behind)
+		if err := os.Link(filepath.Join(root, "outside/f"), filepath.Join(dest, "a")); err != nil {
+			return "infra", "prior: " + err.Error()
+		}
+		linkedIn = []string{"f"}
+	}
+	before, err := outsideState(root, linkedIn...)
 	if err != nil {
 		return "infra", err.Error()
 	}
@@ -511,7 +536,7 @@ func judgeC03(root string, c c03Case) (string, string) {
 	if runtime.NumGoroutine() > baseGoroutines {
 		lingering.Add(1)
 	}
-	after, err := outsideState(root)
+	after, err := outsideState(root, linkedIn...)
 	if err != nil {
 		return "outside-damaged", err.Error()
 	}
